@@ -86,7 +86,9 @@ def make_gate(args: List[Any], kwargs: Dict[str, Any]) -> Rec:
 
 class Folder:
     def __init__(self, env: Optional[Dict[str, Any]] = None, ctors: Optional[Dict[str, Callable]] = None,
-                 opaque_unknown: bool = False, isinstance_hook: Optional[Callable] = None):
+                 opaque_unknown: bool = False, isinstance_hook: Optional[Callable] = None,
+                 resolver: Optional[Callable[[str], Any]] = None):
+        self.resolver = resolver
         self.env: Dict[str, Any] = dict(env or {})
         self.ctors = {"Gate": make_gate}
         if ctors:
@@ -232,6 +234,11 @@ class Folder:
                 return {"True": True, "False": False, "None": None}[e.id]
             if e.id == "pi":
                 return sp.pi
+            if self.resolver is not None:
+                r = self.resolver(e.id)
+                if r is not None:
+                    self.env[e.id] = r
+                    return r
             if self.opaque_unknown:
                 return Opaque(e.id)
             raise Undecidable(f"unknown name {e.id}")
@@ -353,6 +360,14 @@ class Folder:
         return results
 
     def binop(self, op, a, b, node):
+        if isinstance(a, complex) and isinstance(b, sp.Basic):
+            a = sp.nsimplify(a.real) + sp.I * sp.nsimplify(a.imag)
+        if isinstance(b, complex) and isinstance(a, sp.Basic):
+            b = sp.nsimplify(b.real) + sp.I * sp.nsimplify(b.imag)
+        if isinstance(a, float) and isinstance(b, sp.Basic) and float(a).is_integer():
+            a = int(a)
+        if isinstance(b, float) and isinstance(a, sp.Basic) and float(b).is_integer():
+            b = int(b)
         try:
             if isinstance(op, ast.Add):
                 return a + b
@@ -472,6 +487,20 @@ class Folder:
             if fn in ("re.match", "re.search"):
                 return None if r is None else Opaque("re.Match")
             return r
+        if fn in ("np.real", "numpy.real") and len(args) == 1:
+            v = args[0]
+            if isinstance(v, (int, float)):
+                return v
+            if isinstance(v, complex):
+                return v.real
+            if isinstance(v, sp.Basic):
+                return v if v.is_real else sp.re(v)
+        if fn in ("np.exp", "numpy.exp", "math.exp", "exp") and len(args) == 1:
+            return sp.exp(sp.sympify(args[0]))
+        if fn in ("np.cos", "np.sin", "math.cos", "math.sin", "np.sqrt", "math.sqrt") and len(args) == 1:
+            return {"cos": sp.cos, "sin": sp.sin, "sqrt": sp.sqrt}[fn.split(".")[1]](sp.sympify(args[0]))
+        if fn == "abs" and len(args) == 1 and isinstance(args[0], sp.Basic):
+            return sp.Abs(args[0])
         if fn == "eval" and len(args) == 1 and isinstance(args[0], str):
             try:
                 return ast.literal_eval(args[0])
@@ -518,7 +547,8 @@ class Folder:
         except Undecidable:
             fv = None
         if isinstance(fv, FuncVal):
-            sub = Folder(env=dict(self.env), ctors=None, opaque_unknown=self.opaque_unknown, isinstance_hook=self.isinstance_hook)
+            sub = Folder(env=dict(self.env), ctors=None, opaque_unknown=self.opaque_unknown, isinstance_hook=self.isinstance_hook,
+                         resolver=self.resolver)
             sub.ctors = self.ctors
             fa = fv.node.args
             names = [a.arg for a in fa.posonlyargs + fa.args]
